@@ -41,6 +41,8 @@ def backend(asan=False):
     kind = 'asan' if asan else 'opt'
     flags = (['-O1', '-g', '-fsanitize=address', '-fno-omit-frame-pointer']
              if asan else ['-O2', '-g0'])
+    if os.environ.get('VERIF_COV') and not asan:       # development aid, see vlib/cov/sitecustomize.py
+        kind, flags = 'cov', ['-O0', '-g', '--coverage']
     flags += ['-fno-strict-overflow', '-DNDEBUG', '-w']
     tag = source_hash(kind + ' '.join(flags) + env.REPO)
     out = os.path.join(env.BUILD, 'backend-%s-%s' % (kind, tag))
@@ -53,11 +55,17 @@ def backend(asan=False):
             return out
         os.makedirs(out, exist_ok=True)
         tmp = so + '.tmp%d' % os.getpid()
-        cmd = (['gcc', '-shared', '-fPIC'] + flags + MACROS +
+        extra_src = []
+        if kind == 'cov':
+            stub = os.path.join(out, 'covstub.c')
+            with open(stub, 'w') as f:
+                f.write('void __gcov_dump(void);\nvoid verif_gcov_dump(void) { __gcov_dump(); }\n')
+            extra_src = [stub]
+        cmd = (['gcc', '-shared', '-fPIC'] + flags + MACROS + extra_src +
                ['-I' + env.PYINC, '-I/usr/include/ffi', '-I/usr/include/libffi',
                 os.path.join(env.REPO, 'src', 'c', '_cffi_backend.c'),
                 '-o', tmp, '-lffi'])
-        r = subprocess.run(cmd, capture_output=True, text=True)
+        r = subprocess.run(cmd, capture_output=True, text=True, cwd=out)
         if r.returncode != 0:
             raise BuildError('backend build failed:\n' + r.stderr[-4000:])
         os.rename(tmp, so)
